@@ -1,70 +1,12 @@
 package main
 
 import (
-	"fmt"
-	"go/ast"
-	"go/token"
 	"go/types"
-	"sort"
 	"strings"
 )
 
 func init() {
 	register("C19", checkC19, "concrete sequences and partitions for concrete numbers (only the symbolic interval and the partition shape are decided); 'at most n groups' is the arithmetic fact ceil(len/ceil(len/n)) <= n, stated, not mechanised")
-}
-
-type linForm struct {
-	param string // "" for a constant
-	c     int64
-	ok    bool
-}
-
-func (l linForm) String() string {
-	if !l.ok {
-		return "?"
-	}
-	if l.param == "" {
-		return fmt.Sprint(l.c)
-	}
-	switch {
-	case l.c == 0:
-		return l.param
-	case l.c > 0:
-		return fmt.Sprintf("%s+%d", l.param, l.c)
-	}
-	return fmt.Sprintf("%s%d", l.param, l.c)
-}
-
-// linearForm reads x, x+c, x-c, c over the function's parameters, naming the
-// parameters p0, p1 by position.
-func linearForm(info *types.Info, sig *types.Signature, e ast.Expr) linForm {
-	e = unparen(e)
-	if v, ok := constInt(info, e); ok {
-		return linForm{"", v, true}
-	}
-	pname := func(x ast.Expr) string {
-		o := objOf(info, x)
-		for i := 0; i < sig.Params().Len(); i++ {
-			if sig.Params().At(i) == o {
-				return fmt.Sprintf("p%d", i)
-			}
-		}
-		return ""
-	}
-	if p := pname(e); p != "" {
-		return linForm{p, 0, true}
-	}
-	if be, ok := e.(*ast.BinaryExpr); ok && (be.Op == token.ADD || be.Op == token.SUB) {
-		if p := pname(be.X); p != "" {
-			if v, ok := constInt(info, be.Y); ok {
-				if be.Op == token.SUB {
-					v = -v
-				}
-				return linForm{p, v, true}
-			}
-		}
-	}
-	return linForm{}
 }
 
 type iterCopy struct {
@@ -196,100 +138,4 @@ func c19Copy(r *Run, ic *iterCopy) []string {
 	summary = append(summary, c19Partition(r, ic)...)
 	summary = append(summary, c19GroupNext(r, ic))
 	return summary
-}
-
-func c19Len(r *Run) {
-	w := r.W
-	var fn *types.Func
-	for g, key := range w.helperRoots() {
-		if key == "len" {
-			fn = g
-		}
-	}
-	f := w.FuncOf(fn)
-	if f == nil {
-		r.Lost("R5", "function registered as len")
-		return
-	}
-	info := f.Pkg.TypesInfo
-	// every rv.Len() call must be inside a kind-switch arm / if whose kinds are all length kinds
-	lengthKinds := map[int64]string{17: "Array", 18: "Chan", 21: "Map", 23: "Slice", 24: "String"}
-	covered := map[int64]bool{}
-	n := 0
-	for _, c := range callsIn(f.Decl.Body, false) {
-		if !methodIs(calleeOf(info, c), "reflect", "Value", "Len") {
-			continue
-		}
-		n++
-		ok := false
-		for p := w.Parent(c); p != nil; p = w.Parent(p) {
-			cc, isCC := p.(*ast.CaseClause)
-			if !isCC || cc.List == nil {
-				continue
-			}
-			sw, isSw := w.Parent(w.Parent(cc)).(*ast.SwitchStmt)
-			if !isSw || sw.Tag == nil {
-				continue
-			}
-			kc, isCall := unparen(sw.Tag).(*ast.CallExpr)
-			if !isCall || !methodIs(calleeOf(info, kc), "reflect", "Value", "Kind") {
-				continue
-			}
-			all := true
-			for _, e := range cc.List {
-				v, isC := constInt(info, e)
-				if !isC || lengthKinds[v] == "" {
-					all = false
-				} else {
-					covered[v] = true
-				}
-			}
-			ok = all
-		}
-		if ok {
-			r.Ok("R5", f.Name(), "Len() under a kind test", w.Pos(c.Pos()), "only kinds that have a length")
-		} else {
-			r.Bad("R5", f.Name(), "Len() without a sufficient kind test", w.Pos(c.Pos()), "reflect.Value.Len panics for kinds without a length (int, struct, nil pointer, ...)")
-		}
-	}
-	if n == 0 {
-		r.Bad("R5", f.Name(), "no reflective length", w.Pos(f.Decl.Pos()), "len must report the Go length of strings, slices, arrays and maps of any named type")
-	}
-	var missing []string
-	for _, k := range []int64{17, 21, 23, 24} {
-		if !covered[k] {
-			missing = append(missing, lengthKinds[k])
-		}
-	}
-	sort.Strings(missing)
-	if len(missing) == 0 {
-		r.Ok("R5", f.Name(), "reflective length covers Array, Map, Slice, String", w.Pos(f.Decl.Pos()), "named types of these kinds included")
-	} else {
-		r.Bad("R5", f.Name(), "reflective length does not cover "+strings.Join(missing, ","), w.Pos(f.Decl.Pos()), "values of these kinds (including named types such as template.HTML or a pointer to one) report 0 instead of their length")
-	}
-	// pointer dereference before the kind test
-	okPtr := false
-	inspectBody(f.Decl.Body, false, func(nd ast.Node) bool {
-		ifs, ok := nd.(*ast.IfStmt)
-		if !ok {
-			return true
-		}
-		if be, ok := unparen(ifs.Cond).(*ast.BinaryExpr); ok && be.Op == token.EQL {
-			if v, ok := constInt(info, be.Y); ok && v == 22 {
-				for _, st := range ifs.Body.List {
-					if as, ok := st.(*ast.AssignStmt); ok && len(as.Rhs) == 1 {
-						if c, ok := unparen(as.Rhs[0]).(*ast.CallExpr); ok && methodIs(calleeOf(info, c), "reflect", "Value", "Elem") {
-							okPtr = true
-						}
-					}
-				}
-			}
-		}
-		return true
-	})
-	if okPtr {
-		r.Ok("R5", f.Name(), "pointer dereferenced before the kind test", w.Pos(f.Decl.Pos()), "pointer to a sequence has the sequence's length")
-	} else {
-		r.Bad("R5", f.Name(), "pointer to a sequence", w.Pos(f.Decl.Pos()), "len of a pointer to a string/slice/array/map must be the length of what it points to")
-	}
 }
